@@ -76,7 +76,9 @@ Theorem C16_new_teddy_find_is_min :
 Proof. exact Teddy.new_teddy_find_is_min. Qed.
 Print Assumptions C16_new_teddy_find_is_min.
 
-(* FindMatch: the start is the minimum, the span is an occurrence of a pattern *)
+(* ---------------- FindMatch, repaired code (fix d598647 in /repo) ---------------- *)
+
+(* the start is the minimum *)
 Theorem C16_teddy_findmatch_start_is_min : forall (cand : list N -> option (nat * N)) (T : teddy),
   masks_ok T = true -> nonempty (pats T) -> cand_contract T cand ->
   forall (h : list N) (s : nat),
@@ -84,68 +86,123 @@ Theorem C16_teddy_findmatch_start_is_min : forall (cand : list N -> option (nat 
 Proof. exact Teddy.teddy_findmatch_start_is_min. Qed.
 Print Assumptions C16_teddy_findmatch_start_is_min.
 
+Theorem C16_teddy_search_min_fuel_ok : forall (cand : list N -> option (nat * N)) (T : teddy),
+  masks_ok T = true -> nonempty (pats T) -> cand_contract T cand ->
+  forall (h : list N) (s : nat), teddy_search_min cand T h s <> None.
+Proof. exact Teddy.teddy_search_min_fuel_ok. Qed.
+Print Assumptions C16_teddy_search_min_fuel_ok.
+
+(* THE FULL STATEMENT: FindMatch reports the leftmost-first span, for all haystacks and
+   starts (scalar path and candidate path), slim and fat, any candidate finder meeting
+   the contract; buckets_sorted = ids ascending inside each bucket (checked on the dump) *)
+Theorem C16_teddy_findmatch_leftmost_first :
+  forall (cand : list N -> option (nat * N)) (T : teddy),
+  masks_ok T = true -> nonempty (pats T) -> cand_contract T cand ->
+  buckets_sorted T = true ->
+  forall (h : list N) (s : nat), teddy_findmatch cand T h s = pf_findmatch (pats T) h s.
+Proof. exact Teddy.teddy_findmatch_leftmost_first. Qed.
+Print Assumptions C16_teddy_findmatch_leftmost_first.
+
 Theorem C16_teddy_findmatch_reports_occurrence :
   forall (cand : list N -> option (nat * N)) (T : teddy),
   masks_ok T = true -> nonempty (pats T) -> cand_contract T cand ->
+  buckets_sorted T = true ->
   forall (h : list N) (s p e : nat),
   teddy_findmatch cand T h s = Some (p, e) ->
   exists l, In l (pats T) /\ prefix l (skipn p h) /\ e = p + length l.
 Proof. exact Teddy.teddy_findmatch_reports_occurrence. Qed.
 Print Assumptions C16_teddy_findmatch_reports_occurrence.
 
-(* FindMatch is leftmost-first on the < 16 byte path, for prefix-free pattern sets, and
-   for singleton buckets (slim Teddy with at most 8 patterns) ... *)
-Theorem C16_teddy_findmatch_leftmost_first_short :
+(* buildMasks guarantees ascending buckets; end-to-end corollary for the model's own
+   NewTeddy / NewFatTeddy with the pure Go candidate finder: no artifact, no hypothesis *)
+Theorem C16_new_teddy_buckets_sorted : forall (isfat : bool) (ps : list (list N)) (fp : nat),
+  buckets_sorted (new_teddy_gen isfat ps fp) = true.
+Proof. exact Teddy.new_teddy_buckets_sorted. Qed.
+Print Assumptions C16_new_teddy_buckets_sorted.
+
+Theorem C16_new_teddy_findmatch_leftmost_first :
+  forall (isfat : bool) (ps : list (list N)) (fp : nat) (h : list N) (s : nat),
+  ps <> [] -> nonempty ps ->
+  teddy_findmatch_scalar (new_teddy_gen isfat ps fp) h s = pf_findmatch ps h s.
+Proof. exact Teddy.new_teddy_findmatch_leftmost_first. Qed.
+Print Assumptions C16_new_teddy_findmatch_leftmost_first.
+
+Theorem C16_teddy_findmatch_witness_repaired :
+  teddy_findmatch_scalar (new_teddy witness_pats 2) witness_hay 0 = Some (20, 24) /\
+  teddy_findmatch_scalar (new_fat_teddy fat_witness_pats 2) witness_hay 0 = Some (20, 24).
+Proof. exact Teddy.teddy_findmatch_witness_repaired. Qed.
+Print Assumptions C16_teddy_findmatch_witness_repaired.
+
+(* ------- FindMatch, THE ORIGINAL CODE BEFORE FIX d598647 (first hit in bucket order) -------
+   kept to document why the fix is needed: start minimal and span an occurrence, leftmost-
+   first only in three special cases, refuted in general *)
+Theorem C16_teddy_findmatch_bucket_order_start_is_min :
+  forall (cand : list N -> option (nat * N)) (T : teddy),
+  masks_ok T = true -> nonempty (pats T) -> cand_contract T cand ->
+  forall (h : list N) (s : nat),
+  option_map fst (teddy_findmatch_bucket_order cand T h s) = pf_find (pats T) h s.
+Proof. exact Teddy.teddy_findmatch_bucket_order_start_is_min. Qed.
+Print Assumptions C16_teddy_findmatch_bucket_order_start_is_min.
+
+Theorem C16_teddy_findmatch_bucket_order_reports_occurrence :
+  forall (cand : list N -> option (nat * N)) (T : teddy),
+  masks_ok T = true -> nonempty (pats T) -> cand_contract T cand ->
+  forall (h : list N) (s p e : nat),
+  teddy_findmatch_bucket_order cand T h s = Some (p, e) ->
+  exists l, In l (pats T) /\ prefix l (skipn p h) /\ e = p + length l.
+Proof. exact Teddy.teddy_findmatch_bucket_order_reports_occurrence. Qed.
+Print Assumptions C16_teddy_findmatch_bucket_order_reports_occurrence.
+
+Theorem C16_teddy_findmatch_bucket_order_leftmost_first_short :
   forall (cand : list N -> option (nat * N)) (T : teddy),
   masks_ok T = true -> nonempty (pats T) -> cand_contract T cand ->
   forall (h : list N) (s : nat), length h - s < 16 ->
-  teddy_findmatch cand T h s = pf_findmatch (pats T) h s.
-Proof. exact Teddy.teddy_findmatch_leftmost_first_short. Qed.
-Print Assumptions C16_teddy_findmatch_leftmost_first_short.
+  teddy_findmatch_bucket_order cand T h s = pf_findmatch (pats T) h s.
+Proof. exact Teddy.teddy_findmatch_bucket_order_leftmost_first_short. Qed.
+Print Assumptions C16_teddy_findmatch_bucket_order_leftmost_first_short.
 
-Theorem C16_teddy_findmatch_leftmost_first_unambiguous :
+Theorem C16_teddy_findmatch_bucket_order_leftmost_first_unambiguous :
   forall (cand : list N -> option (nat * N)) (T : teddy),
   masks_ok T = true -> nonempty (pats T) -> cand_contract T cand ->
   forall (h : list N) (s : nat), unambiguous (pats T) ->
-  teddy_findmatch cand T h s = pf_findmatch (pats T) h s.
-Proof. exact Teddy.teddy_findmatch_leftmost_first_unambiguous. Qed.
-Print Assumptions C16_teddy_findmatch_leftmost_first_unambiguous.
+  teddy_findmatch_bucket_order cand T h s = pf_findmatch (pats T) h s.
+Proof. exact Teddy.teddy_findmatch_bucket_order_leftmost_first_unambiguous. Qed.
+Print Assumptions C16_teddy_findmatch_bucket_order_leftmost_first_unambiguous.
 
-Theorem C16_teddy_findmatch_leftmost_first_singleton :
+Theorem C16_teddy_findmatch_bucket_order_leftmost_first_singleton :
   forall (cand : list N -> option (nat * N)) (T : teddy),
   masks_ok T = true -> nonempty (pats T) -> cand_contract T cand ->
   forall (h : list N) (s : nat), singleton_buckets T ->
-  teddy_findmatch cand T h s = pf_findmatch (pats T) h s.
-Proof. exact Teddy.teddy_findmatch_leftmost_first_singleton. Qed.
-Print Assumptions C16_teddy_findmatch_leftmost_first_singleton.
+  teddy_findmatch_bucket_order cand T h s = pf_findmatch (pats T) h s.
+Proof. exact Teddy.teddy_findmatch_bucket_order_leftmost_first_singleton. Qed.
+Print Assumptions C16_teddy_findmatch_bucket_order_leftmost_first_singleton.
 
 Theorem C16_new_teddy_singleton : forall (ps : list (list N)) (fp : nat),
   length ps <= 8 -> singleton_buckets (new_teddy ps fp).
 Proof. exact Teddy.new_teddy_singleton. Qed.
 Print Assumptions C16_new_teddy_singleton.
 
-(* ... and it is NOT leftmost-first in general (more than 8 patterns sharing buckets) *)
-Theorem C16_teddy_findmatch_leftmost_first_refuted :
+Theorem C16_teddy_findmatch_bucket_order_leftmost_first_refuted :
   exists (ps : list (list N)) (h : list N) (s : nat),
     let T := new_teddy ps 2 in
     2 <= length ps <= 32 /\
     forallb (fun l => 3 <=? length l) ps = true /\
     masks_ok T = true /\
-    teddy_findmatch_scalar T h s = Some (20, 23) /\
+    teddy_findmatch_bucket_order_scalar T h s = Some (20, 23) /\
     pf_findmatch ps h s = Some (20, 24).
-Proof. exact Teddy.teddy_findmatch_leftmost_first_refuted. Qed.
-Print Assumptions C16_teddy_findmatch_leftmost_first_refuted.
+Proof. exact Teddy.teddy_findmatch_bucket_order_leftmost_first_refuted. Qed.
+Print Assumptions C16_teddy_findmatch_bucket_order_leftmost_first_refuted.
 
-Theorem C16_fat_teddy_findmatch_leftmost_first_refuted :
+Theorem C16_fat_teddy_findmatch_bucket_order_leftmost_first_refuted :
   exists (ps : list (list N)) (h : list N) (s : nat),
     let T := new_fat_teddy ps 2 in
     2 <= length ps <= 64 /\
     forallb (fun l => 3 <=? length l) ps = true /\
     masks_ok T = true /\
-    teddy_findmatch_scalar T h s = Some (20, 23) /\
+    teddy_findmatch_bucket_order_scalar T h s = Some (20, 23) /\
     pf_findmatch ps h s = Some (20, 24).
-Proof. exact Teddy.fat_teddy_findmatch_leftmost_first_refuted. Qed.
-Print Assumptions C16_fat_teddy_findmatch_leftmost_first_refuted.
+Proof. exact Teddy.fat_teddy_findmatch_bucket_order_leftmost_first_refuted. Qed.
+Print Assumptions C16_fat_teddy_findmatch_bucket_order_leftmost_first_refuted.
 
 (* IsComplete with LiteralLen() > 0 (all literals of one length): start + LiteralLen is
    the leftmost-first span *)
